@@ -70,10 +70,12 @@ double CDF_Binomial(unsigned int trials, double p, unsigned int x)
 		std::cerr << "Error in libphysica::CDF_Binomial(): Parameter p is out of bound (p=" << p << ")." << std::endl;
 		std::exit(EXIT_FAILURE);
 	}
+	if(x >= trials)
+		return 1.0;
 	double cdf = 0.0;
 	for(unsigned int i = 0; i <= x; i++)
 		cdf += PMF_Binomial(trials, p, i);
-	return cdf;
+	return std::min(1.0, cdf);
 }
 
 // 1.4 Poission distribution
